@@ -37,7 +37,7 @@ def install_probes():
             else:
                 a = np.asarray(v)
                 if a.dtype.kind == "M":
-                    rec[k] = [int(x) for x in a.astype("datetime64[s]").astype("int64").tolist()]
+                    rec[k] = [None if np.isnat(x) else int(x.astype("datetime64[s]").astype("int64")) for x in a]
                 elif a.dtype.kind == "O":
                     rec[k] = [int(np.datetime64(x, "s").astype("int64")) if not isinstance(x, (int, float)) else x for x in a.tolist()]
                 else:
@@ -58,10 +58,13 @@ def install_probes():
 SHUFFLE = {0: [], 1: [0], 2: [1, 0], 3: [1, 2, 0], 4: [2, 0, 3, 1], 5: [3, 0, 4, 1, 2], 6: [2, 5, 0, 3, 1, 4], 7: [3, 6, 1, 4, 0, 5, 2]}
 
 
-def table(n, has_z=True, has_ll=True, shuffled=False):
-    """rows in file order; with shuffled=True the time column is not monotonic (rows keep their order)."""
+def table(n, has_z=True, has_ll=True, shuffled=False, nat=False):
+    """rows in file order; with shuffled=True the time column is not monotonic (rows keep their order);
+    with nat=True the second row has a missing time (None = NaT)."""
     order = SHUFFLE[n] if shuffled else list(range(n))
     d = dict(n=n, time=[T0 + i * DAY for i in order], v=V[:n], w=W[:n])
+    if nat and n >= 2:
+        d["time"][1] = None
     if has_z:
         d["z"] = Z[:n]
     if has_ll:
@@ -90,7 +93,13 @@ def window_grid(n):
 
 
 def ref_mask(times, start, end):
-    return [(start is None or t >= start) and (end is None or t < end) for t in times]
+    """a row with a missing time satisfies no bound"""
+    return [((start is None and end is None) if t is None else ((start is None or t >= start) and (end is None or t < end))) for t in times]
+
+
+def dt64n(secs):
+    """epoch seconds (None = NaT) -> datetime64[ns]"""
+    return np.array([np.datetime64("NaT") if s is None else np.datetime64(int(s), "s") for s in secs], dtype="datetime64[ns]") if len(secs) else np.array([], dtype="datetime64[ns]")
 
 
 def window_kind(times, start, end):
@@ -130,7 +139,7 @@ def run_frontend(fe, tab, config_dict):
     from ioos_qc.streams import NetcdfStream, NumpyStream, PandasStream, XarrayStream
 
     n = tab["n"]
-    times = alpha.dt64(tab["time"])
+    times = dt64n(tab["time"])
     cols = {k: np.array(tab[k], dtype="float64") for k in ("v", "w", "z", "lat", "lon") if k in tab}
     kind, _, variant = fe.partition(":")
     cfg = Config(config_dict)
@@ -143,11 +152,22 @@ def run_frontend(fe, tab, config_dict):
         return list(PandasStream(df).run(cfg))
     if kind == "numpy":
         axes = {k2: cols[k] for k, k2 in (("z", "z"), ("lat", "lat"), ("lon", "lon")) if k in cols}
+        if variant == "dictnotime":
+            return list(NumpyStream(inp={k: cols[k] for k in ("v", "w")}, **axes).run(cfg))
         if variant == "nd":
             return list(NumpyStream(inp=cols["v"], time=times, **axes).run(cfg))
         return list(NumpyStream(inp={k: cols[k] for k in ("v", "w")}, time=times, **axes).run(cfg))
     if kind in ("xarray", "netcdf"):
-        if variant == "var":
+        if variant == "twodims":
+            # v, w on the time dimension with z/lat/lon as coordinates; u on another, longer dimension without any axis
+            data = {k: ("time", cols[k]) for k in ("v", "w")}
+            data["u"] = ("obs", np.arange(n + 2, dtype="float64"))
+            coords = {"time": times}
+            for k in ("z", "lat", "lon"):
+                if k in cols:
+                    coords[k] = ("time", cols[k])
+            ds = xr.Dataset(data, coords=coords)
+        elif variant == "var":
             ds = xr.Dataset({k: ("obs", a) for k, a in cols.items()} | {"time": ("obs", times)})
         else:
             ds = xr.Dataset({k: ("time", a) for k, a in cols.items()}, coords={"time": times})
@@ -165,7 +185,7 @@ def direct_call(module, test, kwargs, tab, rows):
     sel = lambda col: np.array([tab[col][i] for i in rows], dtype="float64")
     kw = dict(kwargs or {})
     kw["inp"] = None  # placeholder, set by caller
-    avail = {"tinp": alpha.dt64([tab["time"][i] for i in rows])}
+    avail = {"tinp": dt64n([tab["time"][i] for i in rows])}
     if "z" in tab:
         avail["zinp"] = sel("z")
     if "lat" in tab:
